@@ -172,6 +172,7 @@ class Index:
         self.matches = canon.desugar_matches(self)
         self.walrus = canon.desugar_walrus(self)
         self.yieldfroms = canon.desugar_yield_from(self)
+        self.enumerates = canon.desugar_enumerate_idioms(self)
         self.positional = canon.positional_calls(self)
         self.aliased = canon.attach_aliased_methods(self)
         self.renamed = canon.apply(self, canon.discover(self))
